@@ -123,6 +123,7 @@ ParseStruct(bs, p0, depth) ==
                                                     ELSE [ok |-> TRUE, id |-> ToNat(w), p |-> z.p, neg |-> FALSE]
                          IN IF ~idr.ok THEN idr
                             ELSE IF idr.neg THEN Bad("negative-field-id")
+                            ELSE IF idr.id > 32767 THEN Bad("field-id-exceeds-i16")
                             ELSE IF TypeName(tid) = "invalid" THEN Bad("invalid-type")
                             ELSE IF tid \in {1, 2}
                                  THEN go(idr.p, idr.id, Append(acc, [id |-> idr.id, val |-> [t |-> "bool", v |-> tid = 1]]))
@@ -145,7 +146,7 @@ ParseVal(bs, p, tid, depth) ==
       [] tid = 8 ->
             LET z == UvarNatParse(bs, p)
             IN IF ~z.ok THEN z
-               ELSE IF ~HasBytes(bs, z.p, z.v) THEN Bad("truncated-binary")
+               ELSE IF z.v > Len(bs) \/ ~HasBytes(bs, z.p, z.v) THEN Bad("truncated-binary")
                ELSE [ok |-> TRUE, v |-> [t |-> "binary", v |-> Slice(bs, z.p, z.v)], p |-> z.p + z.v]
       [] tid \in {9, 10} ->
             IF p > Len(bs) THEN Bad("truncated-list")
